@@ -134,18 +134,22 @@ def det (m : Mat F) : F :=
   let s := (List.range m.length).foldl detStep { rows := m, det := 1, sign := 1, singular := false }
   if s.singular then 0 else s.det * s.sign
 
-/-- `TryInv`: Gauss–Jordan on `[A | I]`; `none` = singular -/
-def inverse (m : Mat F) : Option (Mat F) :=
-  let n := m.length
-  let aug : Mat F := List.zipWith (· ++ ·) m (identity n)
-  let step (acc : Option (Mat F)) (k : Nat) : Option (Mat F) :=
-    match acc with
+/-- one step of `TryInv` at diagonal position `k` (`none` = no pivot in column `k`: singular) -/
+def invStep (acc : Option (Mat F)) (k : Nat) : Option (Mat F) :=
+  match acc with
+  | none => none
+  | some rows =>
+    match findPivot rows k k with
     | none => none
-    | some rows =>
-      match findPivot rows k k with
-      | none => none
-      | some pr => some (pivotStep rows k pr k)
-  ((List.range n).foldl step (some aug)).map fun rows => rows.map (·.drop n)
+    | some pr => some (pivotStep rows k pr k)
+
+/-- Gauss–Jordan on `[A | I]` -/
+def inverseAug (m : Mat F) : Option (Mat F) :=
+  (List.range m.length).foldl invStep (some (List.zipWith (· ++ ·) m (identity m.length)))
+
+/-- `TryInv`: Gauss–Jordan on `[A | I]`, the right half of the result; `none` = singular -/
+def inverse (m : Mat F) : Option (Mat F) :=
+  (inverseAug m).map fun rows => rows.map (·.drop m.length)
 
 section Module
 variable {G : Type} [Add G] [OfNat G 0] [HSMul F G G]
